@@ -73,11 +73,15 @@ func solveAll(eng *Engine, obls []*Obligation, timeout time.Duration, dir string
 	out := make([]oblResult, len(obls))
 	// scripts are rendered sequentially (term store is not concurrent), solving runs in parallel
 	scripts := make([]string, len(obls))
+	relaxed := make([]string, len(obls))
 	for i, o := range obls {
 		s, ax := eng.script(o, true)
 		scripts[i] = s
 		out[i].o = o
 		out[i].ax = ax
+		if rs, _, dropped := eng.scriptR(o, true, true); dropped {
+			relaxed[i] = rs
+		}
 	}
 	var wg sync.WaitGroup
 	sem := make(chan struct{}, par)
@@ -91,7 +95,22 @@ func solveAll(eng *Engine, obls []*Obligation, timeout time.Duration, dir string
 				out[i].res = SolveResult{Status: "toolarge", Output: fmt.Sprintf("script of %d bytes exceeds the 4 MB cap", len(scripts[i]))}
 				return
 			}
+			var first SolveResult
+			if relaxed[i] != "" {
+				// stage 1: without quantified hypotheses (definite answers, usable models)
+				first = Solve(relaxed[i], dir, obls[i].Name+".relaxed", timeout)
+				if first.Status == "unsat" {
+					first.Solver += "(qf)"
+					out[i].res = first
+					return
+				}
+			}
 			out[i].res = Solve(scripts[i], dir, obls[i].Name, timeout)
+			out[i].res.Seconds += first.Seconds
+			if out[i].res.Status != "unsat" && first.Status == "sat" {
+				out[i].res.Output = "model of the quantifier-free relaxation (hypotheses with quantifiers dropped):\n" + first.Output + "\nfull query: " + out[i].res.Status + "\n" + out[i].res.Output
+				out[i].res.RelaxedModel = first.Output
+			}
 			obls[i].Script = filepath.Join(dir, sanitizeFile(obls[i].Name)+".smt2")
 		}(i)
 	}
